@@ -1868,5 +1868,7 @@ fn main() {
     .sub(Sub::new("repro_decoder_union_align", 0, 0, repro_decoder_union_align))
     .sub(Sub::new("repro_flight_union_nullable", 0, 0, repro_flight_union_nullable))
     .sub(Sub::new("repro_flight_hydrate_union", 0, 0, repro_flight_hydrate_union))
-    .run()
+    // worker-subprocess isolation: an abort of the code under test (e.g. an absurd allocation after mis-framed input) is
+    // attributed to the case in flight and reported as a violation instead of killing the check
+    .run_isolated()
 }
